@@ -8,6 +8,8 @@ import (
 	"path/filepath"
 	"strings"
 
+	"github.com/glebziz/fs_db/pkg/verif"
+
 	"verifharness/internal/dbx"
 	"verifharness/internal/refmodel"
 	"verifharness/internal/rt"
@@ -198,6 +200,12 @@ func c05Case(tier string, seed int64, idx int, scratch string) rt.CaseResult {
 	steps := c05History(seed, idx/4, tier)
 	dir := filepath.Join(scratch, "db")
 	os.MkdirAll(scratch, 0o755)
+	if (cfg[:1] == "a" || cfg[:1] == "c") && (idx/4)%3 == 1 {
+		// this process (one case per process) starts just below 2^32: the history crosses the
+		// 32-bit boundary of the sequence counter and is reopened afterwards
+		verif.SeqRaise(verif.Seq(1<<32 - 25))
+		c.Count("histories_crossing_2^32", 1)
+	}
 	report := func(m *seqrun.Mismatch, extra string) {
 		c.Violate(m.Sig+" config="+cfg[:1], m.Error()+" ["+cfg+"] "+extra, map[string]any{"seed": seed, "config": cfg, "steps": steps, "mismatch": m})
 	}
